@@ -16,21 +16,22 @@ COMPONENTS = {
 PROPERTIES = {
     "C20": {
         "components": ["sched"],
-        "rule": ("one case = one scenario on its own ActorSystem: 1-3 scripted actors (names from {a, a:b, b, x, y}, so that the keys "
-                 "'/a'+':'+'b:c' and '/a:b'+':'+'c' collide), references from {r, s, c, b:c}; ops with nominal times on a 150 ms slot grid: "
-                 "scheduling calls (Once with delays 0/600/1200/1800/-1500 ms, Loop 600/1200 ms, Cron valid (year 2099)) on even slots in two "
+        "rule": ("one case = one scenario on its own ActorSystem: 1-3 scripted actors (names from {a, a:b, b, x, y}; with references from {r, s, c, b:c} the "
+                 "pairs (/a, b:c) and (/a:b, c) render the same string 'path:reference' - the collision fixed by 06e0030), rarely the empty reference; ops with nominal times on a 150 ms slot grid: "
+                 "scheduling calls (Once with delays 0/600/1200/1800 ms and the rejected -1500 ms, Loop 600/1200 ms and the rejected 0/-1500 ms, Cron valid (year 2099)) on even slots in two "
                  "lanes, everything sensitive to firings (Cancel of known/unknown references, Clear, Exists, kill, restart by a panicking "
                  "handler under a restarting supervisor, invalid Cron, dumps of every actor's jobKeys and of the quartz queue through "
                  "accessors, the final observation) on odd slots, 150 ms away from every ideal firing instant; a key is scheduled at most "
-                 "twice, the second time in the other lane; receivers are the owner or another (possibly dead) actor. Compared with the "
+                 "twice, the second time in the other lane (re-use of a live reference is rejected, re-use after the job is gone succeeds); receivers are the owner or another (possibly dead) actor. Compared with the "
                  "model: every return value, Exists, every dump, and per scheduling call the number of deliveries and of dead letters. "
-                 "A watchdog measures scheduling gaps (> 60 ms) and op lateness (> 50 ms): a disturbed scenario is discarded and re-run, "
-                 "never judged. 15 directed scenarios (each examined weakness, kill, restart, Cron, many jobs) + seeded random ones; plus one "
+                 "A watchdog measures scheduling gaps (> 60 ms) and op lateness (> 50 ms), and a canary - a 30 ms Loop of the harness's own in the "
+                 "same quartz scheduler, whose arrivals bound the lateness of every tested firing - must never be more than 75 ms apart: "
+                 "a disturbed scenario is discarded and re-run, never judged. 16 directed scenarios (each examined weakness, rejected arguments, kill, restart, Cron, many jobs) + seeded random ones; plus one "
                  "scenario in a child process that is suspended with SIGSTOP across the instant of a Once (compared with the model's Stall). "
                  "non-trivial = at least one message was told and at least one Cancel/Clear/kill/restart happened; distinct = distinct input terms"),
         "modelled_not_verified": [
-            "M8: go-quartz is third-party; its queue is modelled as a table keyed by the job key, its execution loop per job (prompt while OTick, absent while OStall), its misfire rule (OutdatedThreshold 100 ms) as read from quartz/scheduler.go validateJob; cron parsing is a validity flag given with the op and a valid cron job never fires within the model's horizon",
-            "M6: time is a virtual clock in ms; the correspondence runs use real time with 150 ms margins and discard runs in which a scheduling gap > 60 ms or an op later than 50 ms was measured",
+            "M8: go-quartz is third-party; its queue is modelled as a table keyed by the job key (group = owner path, name = reference), its execution loop per job (prompt while OTick, absent while OStall), its misfire rule (OutdatedThreshold 100 ms) as read from quartz/scheduler.go validateJob; cron parsing is a validity flag given with the op and a valid cron job never fires within the model's horizon",
+            "M6: time is a virtual clock in ms; the correspondence runs use real time with 150 ms margins and discard runs in which a scheduling gap > 60 ms, an op later than 50 ms or a canary gap > 75 ms was measured",
             "a firing is atomic in the model (the Tell happens at the firing instant); in the code the Tell is done by a goroutine quartz starts at the firing instant, so a message can be enqueued after a Cancel that followed the instant returned (examined case (e): measured as statistics only, not modelled)",
             "M7: default references are fresh UUIDs; the model takes the reference as an operand",
             "jobKeys is only touched by its owner's goroutine (calls are made inside handlers; C01); system.Scheduler() used from foreign goroutines is outside the model",
@@ -42,15 +43,17 @@ PROPERTIES = {
 
 META = {
     "C20": {
-        "text": ("23 kernel-checked theorems about the Gallina model of the per-actor Scheduler on the go-quartz queue (virtual clock; job key = the byte string "
-                 "path:reference; jobKeys written before quartz ScheduleJob whose already-exists error is ignored; Cancel/Clear delete by key; termination and restart = Clear; "
-                 "quartz's misfire rule), for ALL op sequences of Once/Loop/Cron/Cancel/Clear/Exists by any actors, terminations, restarts and clock steps: a Once is told at most once and "
+        "text": ("23 kernel-checked theorems about the Gallina model of the per-actor Scheduler on the go-quartz queue (virtual clock; job key = the pair "
+                 "(owner path, reference); negative delays, non-positive intervals, an empty or still-queued reference are rejected and change nothing; jobKeys written after a "
+                 "successful quartz ScheduleJob; Cancel/Clear delete by key; termination and restart = Clear; quartz's misfire rule), for ALL op sequences of Once/Loop/Cron/Cancel/Clear/Exists by any actors, terminations, restarts and clock steps: a Once is told at most once and "
                  "never before t0+d; removed by its owner (Cancel, Clear, termination, restart) before the instant it is never told (no delivery, no dead letter), and after such a removal "
                  "no job tells anything any more; a Loop tells at t0+i, t0+2i, ... (an initial segment, complete while not removed); an invalid Cron returns the parse error and changes nothing; "
                  "Cancel of an unknown reference returns not-found and changes nothing; whatever is told carries the scheduled payload to the scheduled receiver; every queued job is "
-                 "registered in its live owner's jobKeys, so termination/restart leave no job of the actor and nothing is told on its behalf afterwards. The full 'delivered exactly once' "
-                 "clause is REFUTED on the faithful model with witnesses that reproduce on the code (re-use of a live reference, colliding keys through ':' in paths/references, quartz "
-                 "dropping a job that is > 100 ms late, negative delays) and proved under the hypotheses that exclude exactly these. Tied to the code on every run by whole-scenario "
+                 "registered in its live owner's jobKeys, so termination/restart leave no job of the actor and nothing is told on its behalf afterwards. 'Delivered exactly once at t0+d' (C20_once) and 'exactly the instants t0+k*i' "
+                 "(C20_loop) hold for every call that returned nil and is not removed by its owner, for all op sequences without a stall of the quartz loop; with a stall they are "
+                 "REFUTED by witnesses that reproduce on the code (go-quartz drops a Once that is > 100 ms late and skips Loop firings: known finding, third-party rule). The earlier "
+                 "weaknesses (re-use of a live reference silently dropped, colliding keys through ':' in paths/references, negative delay never firing, non-positive interval "
+                 "spinning the quartz loop) were repaired in /repo (06e0030, 9c4b505, 7fd453c) and the model follows the repaired code. Tied to the code on every run by whole-scenario "
                  "differential runs on real actor systems in real time."),
         "design_ref": "DESIGN.md §4 C20",
         "note": ("Trusted: Coq kernel + vm_compute; ExtrOcamlBasic extraction (cross-checked by vm_compute on a sample each run); the harness (slot grid, watchdog, bookkeeping of removals), "
